@@ -432,6 +432,16 @@ func genPayloadRaw(r *rand.Rand, amount *big.Int, wellFormedBias bool) string {
 		return []string{"", "{", "null", "[]", `{"type":5}`}[r.Intn(5)]
 	}
 	if r.Intn(14) == 0 {
+		// valid JSON whose fields are all there and well formed, but one key comes a second time (or only) with a value
+		// of the wrong type: a decoder fills the struct and THEN reports a type error - not a command for anybody
+		return []string{
+			fmt.Sprintf(`{"type":%q,"recipient":%q,"fee":%q,"fee":1}`, typ, rcp, fee),
+			fmt.Sprintf(`{"type":%q,"recipient":%q,"fee":%q,"type":7}`, typ, rcp, fee),
+			fmt.Sprintf(`{"type":%q,"recipient":%q,"fee":%q,"recipient":[]}`, typ, rcp, fee),
+			fmt.Sprintf(`{"type":%q,"recipient":%q,"fee":0}`, typ, rcp),
+		}[r.Intn(4)]
+	}
+	if r.Intn(14) == 0 {
 		// a well-formed command that carries a key the connector does not know (wallets add memos)
 		b, _ := json.Marshal(map[string]string{"type": typ, "recipient": rcp, "fee": fee, []string{"memo", "comment", "ref"}[r.Intn(3)]: "x"})
 		return string(b)
